@@ -21,6 +21,9 @@ def run(ck):
         ck.guard("C15-R3", r3_clamp, ck, F)
         ck.guard("C15-R4", r4_estimate, ck, F)
         ck.guard("C15-R5", r5_reset, ck, F)
+        # the block size configured on a Sorter reaches every chunk writer it builds
+        from .c07 import r8_config
+        ck.guard("C15-R6", r8_config, ck, F, "C15-R6", ("block_size",))
     ck.trusted += ["rustc MIR construction"]
 
 
